@@ -215,10 +215,9 @@ func (r *rewriter) wrapYield(c *astutil.Cursor, call *ast.CallExpr, kind string,
 var fsFuncs = map[string]map[string]bool{
 	"os": {"Stat": true, "Lstat": true, "Open": true, "OpenFile": true, "Create": true, "CreateTemp": true, "MkdirTemp": true,
 		"Mkdir": true, "MkdirAll": true, "Remove": true, "RemoveAll": true, "Rename": true, "ReadFile": true, "WriteFile": true,
-		"Symlink": true, "Readlink": true, "ReadDir": true, "Chmod": true, "TempDir": true, "File": true, "Getenv": true,
-		"IsNotExist": false},
+		"Symlink": true, "Readlink": true, "ReadDir": true, "Chmod": true, "TempDir": true, "File": true},
 	"path/filepath": {"Walk": true, "WalkDir": true, "Abs": true, "EvalSymlinks": true},
-	"io/ioutil":     {"ReadFile": true, "WriteFile": true, "TempFile": true, "TempDir": true, "ReadDir": true},
+	"io/ioutil":     {"ReadFile": true, "WriteFile": true},
 	"archive/zip":   {"OpenReader": true},
 }
 
